@@ -133,6 +133,7 @@ def run(chk):
     try:
         srcs = value_sources(work)
         jobs = []
+        asts = {}
         for b in BUILTINS:
             jobs.append(("builtin", b, "%s()" % b))
             for s in srcs:
@@ -166,7 +167,10 @@ def run(chk):
         try:
             from . import gen
             for _ in range(1500 if quick else 40000):
-                jobs.append(("illtyped", "", gen.random_program_text(rng, illtyped=True)))
+                prog = gen.random_program(rng, illtyped=True)
+                text = gen.PRELUDE + gen.render(prog)[0]
+                asts[text] = prog
+                jobs.append(("illtyped", "", text))
         except ImportError:
             pass
         cases = []
@@ -234,6 +238,14 @@ def run(chk):
                     confirmed = rr
                     break
             if confirmed is not None:
+                err = confirmed["err"].decode("utf-8", "replace")
+                if ("capacity overflow" in err or "memory allocation of" in err) and src in asts:
+                    # a request for more memory than the machine has is excluded by the property; the evaluator
+                    # tells whether the program really asks for that (huge string repetition)
+                    ev = gen.evaluate(asts[src])
+                    if ev.get("status") == "unspecified" and "huge" in ev.get("reason", ""):
+                        chk.count("excluded: allocation beyond the machine")
+                        continue
                 report_crash(chk, src, confirmed, cls, r)
             elif r.get("outcome") == "hang":
                 chk.inconc("probe hang not reproduced as a crash")
